@@ -31,11 +31,28 @@ func RenameBlankIdentifier(sig *types.Signature) *types.Signature {
 // The given prefix is used to rename.
 func RenameBlankIdentifierWith(sig *types.Signature, prefix string) *types.Signature {
 	params := sig.Params()
-	if !hasBlankIdentifier(params) {
+	results := unnamed(sig.Results())
+	if !hasBlankIdentifier(params) && results == sig.Results() {
 		return sig
 	}
 	renamedTuple := rename(params, prefix)
-	return types.NewSignature(sig.Recv(), renamedTuple, sig.Results(), sig.Variadic())
+	return types.NewSignature(sig.Recv(), renamedTuple, results, sig.Variadic())
+}
+
+// unnamed returns the results without their names: a generated wrapper never refers to them, and a
+// result called f (or err) would shadow the function the wrapper has to call.
+func unnamed(tup *types.Tuple) *types.Tuple {
+	named := false
+	vars := make([]*types.Var, tup.Len())
+	for i := range vars {
+		v := tup.At(i)
+		named = named || v.Name() != ""
+		vars[i] = types.NewVar(v.Pos(), v.Pkg(), "", v.Type())
+	}
+	if !named {
+		return tup
+	}
+	return types.NewTuple(vars...)
 }
 
 func hasBlankIdentifier(tup *types.Tuple) bool {
